@@ -16,6 +16,13 @@ constraint-list code (`cboundCons`, `socCons`, … in `DK/Model/Constraints.lean
   families hold at every slot;
 * an `ADevice` adds its user constraints, which are opaque.
 
+Scope of the rate-clip half: the property text only says "plus rate clipping when configured" and
+the class docstring gives no formula, so `StorageSpec.clipLo/clipHi` are the *code's own*
+expressions (`x i ≥ c·lb i·soc i/capacity`, `x i ≤ c·hb i·(1 − soc i/capacity)`) restated on the
+reported state of charge.  For that half the `↔` can therefore only detect a clip constraint that is
+dropped, attached to another slot / another slot's bound or state, or mis-scaled *relative to that
+expression*; it is not evidence that the expression is the physically intended one.
+
 The theorems say that the exported constraint list holds at `x` **iff** the specification does: for
 every horizon `n`, every list of cumulative bounds (any number, contiguous or overlapping, any
 limits), all storage parameters, both rate-clip switches, every user-constraint list.  The `↔` is
